@@ -42,7 +42,8 @@ Inductive event := EvIn (p : packet) | EvOut (o : outgoing).
 
 (** [StateError] kinds that state.rs can produce *)
 Inductive error :=
-| EUnsolicited (id : N) | EAwaitPingResp | EWrongPacket | ECollisionTimeout | EEmptySubscription.
+| EUnsolicited (id : N) | EAwaitPingResp | EWrongPacket | ECollisionTimeout | EEmptySubscription
+| EConnectionAborted.   (* framed.rs: the transport ended; never produced by state.rs *)
 
 (** panic tags *)
 Definition P_INDEX : N := 1.        (* outgoing_pub[i] out of range *)
